@@ -457,7 +457,7 @@ ops:
 				}
 			}
 			sleepUntil(next(op.Wait))
-			s := &lifeCall{kind: "subscribe", op: i, n: nSub, at: w.now(), query: op.Query, refused: queryRefused(op.Query, sc.Plain)}
+			s := &lifeCall{kind: "subscribe", op: i, n: nSub, at: w.now(), query: op.Query, refused: queryRefused(op.Query, sc.Plain, sc.Client == "cache")}
 			nSub++
 			if op.Query != "" {
 				st.label("query:" + op.Query)
@@ -467,7 +467,7 @@ ops:
 				if s.n > 0 {
 					st.label("subscribe-refused-on-a-used-client")
 				}
-			} else if queryInvalid(op.Query) {
+			} else if queryInvalid(op.Query, sc.Client == "cache") {
 				st.label("every-attempt-rejects-the-query")
 			}
 			w.mu.Lock()
@@ -688,7 +688,7 @@ func judgeLife(sc *LScenario, w *world, st *stats, calls []*lifeCall, deaf map[i
 	for _, c := range calls {
 		switch c.kind {
 		case "subscribe":
-			if c.refused && !c.stopped {
+			if c.refused {
 				to := len(w.events)
 				if c.returned {
 					to = c.retSeq - 1
